@@ -244,13 +244,16 @@ CHECKS = {
         {"faults_fired": 3000, "sites": 2000, "failed_starts": 1500, "restarts_checked": 1500, "natural_checked": 50},
         config="asan-nd", assumptions=KERNEL_TRUST + ["faults are injected at the libc boundary (a call returns -1/errno without being performed; close is performed first; waitpid/ECHILD is performed first)"]),
     "C05": scen_check(
-        [("eng_fault", "asan-nd"), ("eng_ident", "asan")], "fault_enumeration",
+        [("eng_fault", "asan-nd"), ("eng_ident", "asan"), ("eng_ledger", "asan")], "fault_enumeration",
         "same campaign as C04 with the ownership ledger as oracle: every pipe/open/dup the library makes is owned, every "
         "close/free must hit an owned object exactly once, at the end of start/pid/start/terminate/kill/wait/destroy nothing "
         "may be owned, the /proc/self/fd table must equal the one before reproc_new, no child of the runner may be left and "
         "every user-supplied handle/FILE/standard stream must still be open; the same ledger oracle also runs (fault-free) over "
-        "all 262 redirect configurations x 9 descriptor situations of C10; non-trivial = fault fired or fault-free scenario",
-        {"ledger_checks": 3000, "faults_fired": 3000, "sites": 2000, "config_ledger_checks": 2000}, assumptions=KERNEL_TRUST),
+        "all 262 redirect configurations x 9 descriptor situations of C10, and over a slice of the workloads of C07/C08/C09/C14/C15/C16/C17 "
+        "(poll and wait grids with expired deadlines, random call sequences, drain/run, stop and destroy in every state) whenever "
+        "every handle of the case was destroyed again; non-trivial = fault fired or fault-free scenario",
+        {"ledger_checks": 3000, "faults_fired": 3000, "sites": 2000, "config_ledger_checks": 2000,
+         "sequence_ledger_checks": 2500, "sequence_sources": 6}, assumptions=KERNEL_TRUST),
     "C12": scen_check(
         "eng_fault", "fault_enumeration",
         "same campaign with random initial signal masks and dispositions (default/ignore/handler for SIGINT, SIGUSR1, SIGUSR2): "
